@@ -144,6 +144,18 @@ func buildCfgCase(seed int64, idx int, dir string, thorough bool) *cfgCase {
 				vals[top] = builtin[k.Name]
 			}
 		}
+		// one process in sixteen: the winning source of one UDP port key says 65535, the largest port there is - a value
+		// range is part of "a setting is applied" (round 14, C17-m). One such process at a time: the port is shared.
+		if strings.HasPrefix(k.Role, "port:") && idx%16 == 6 && ki == int(seed%2) && sub != 0 {
+			top := "env"
+			if sub&2 != 0 {
+				top = "file"
+			}
+			if sub&4 != 0 {
+				top = "flag"
+			}
+			vals[top] = "65535"
+		}
 		eff := builtin[k.Name]
 		src := "default"
 		if sub&1 != 0 {
